@@ -166,6 +166,11 @@ func fingerprint(rel, name string) []string {
 		case *ast.AssignStmt:
 			if v.Tok != token.ASSIGN && v.Tok != token.DEFINE {
 				out = append(out, v.Tok.String())
+			} else {
+				// plain assignments: which variable / field is written, in source order
+				for _, l := range v.Lhs {
+					out = append(out, "="+exprName(l))
+				}
 			}
 		case *ast.IncDecStmt:
 			out = append(out, v.Tok.String())
@@ -481,7 +486,7 @@ func main() {
 		{"drpcwire/split.go", "SplitN"}, {"drpcwire/split.go", "SplitData"},
 		{"drpcwire/reader.go", "NewReaderWithOptions"}, {"drpcwire/reader.go", "Reader.read"}, {"drpcwire/reader.go", "Reader.ReadPacketUsing"},
 		{"drpcwire/writer.go", "NewWriter"}, {"drpcwire/writer.go", "Writer.WriteFrame"}, {"drpcwire/writer.go", "Writer.Flush"},
-		{"drpcwire/writer.go", "Writer.Reset"}, {"drpcwire/writer.go", "Writer.Empty"},
+		{"drpcwire/writer.go", "Writer.Reset"}, {"drpcwire/writer.go", "Writer.Empty"}, {"drpcwire/writer.go", "Writer.WritePacket"},
 		{"drpcwire/error.go", "MarshalError"}, {"drpcwire/error.go", "UnmarshalError"},
 		{"drpcerr/err.go", "Code"}, {"drpcerr/err.go", "WithCode"},
 		{"drpcmetadata/serialize.go", "varintSize"}, {"drpcmetadata/serialize.go", "encodedStringSize"},
@@ -497,7 +502,8 @@ func main() {
 		{"drpchttp/protocol_twirp.go", "twirpStream.Finish"}, {"drpchttp/protocol_twirp.go", "setErrorOrEOF"},
 		{"drpcsignal/signal.go", "Signal.Signal"}, {"drpcsignal/signal.go", "Signal.signalSlow"}, {"drpcsignal/signal.go", "Signal.Set"},
 		{"drpcsignal/signal.go", "Signal.setSlow"}, {"drpcsignal/signal.go", "Signal.Get"}, {"drpcsignal/signal.go", "Signal.IsSet"},
-		{"drpcsignal/signal.go", "Signal.Err"},
+		{"drpcsignal/signal.go", "Signal.Err"}, {"drpcsignal/signal.go", "Signal.Wait"},
+		{"drpcsignal/chan.go", "Chan.setFresh"}, {"drpcsignal/chan.go", "Chan.setClosed"},
 		{"drpcsignal/chan.go", "Chan.do"}, {"drpcsignal/chan.go", "Chan.doSlow"}, {"drpcsignal/chan.go", "Chan.Close"},
 		{"drpcsignal/chan.go", "Chan.Make"}, {"drpcsignal/chan.go", "Chan.Get"}, {"drpcsignal/chan.go", "Chan.Send"},
 		{"drpcsignal/chan.go", "Chan.Recv"}, {"drpcsignal/chan.go", "Chan.Full"},
